@@ -158,6 +158,18 @@ FamPrism(kind) == { Regular(kind, 6, PrismEdges, M, r) : M \in Matchings(PrismEd
 FamCube(kind) == { Regular(kind, 8, CubeEdges, M, r) :
                      M \in { m \in Matchings(CubeEdges) : Cardinality(m) = 4 }, r \in {"formed", "fleeting"} }
 
+(* Partner exchange among three diatomics: reactant bonds 1-2, 3-4, 5-6, product any perfect matching of the six
+   atoms (identity, a four-ring exchange with a spectator, the six-ring exchange, ...).  Reactant and product look the
+   same atom by atom; only the transition structure (the union of all bonds) tells the reactions apart. *)
+ExchR == { {1,2}, {3,4}, {5,6} }
+PerfectMatchings6 == { m \in SUBSET PairSet(1..6) : Cardinality(m) = 3 /\ UNION m = 1..6 }
+Exch(kind, el, P) ==
+   Mk(kind, el, [b \in ExchR \cup P |-> Bd(IF b \in ExchR /\ b \in P THEN "none" ELSE IF b \in ExchR THEN "broken" ELSE "formed")])
+FamExch(kind) ==
+   { Exch(kind, [a \in 1..6 |-> 1], P) : P \in PerfectMatchings6 } \cup
+   { Exch(kind, [a \in 1..6 |-> IF a % 2 = 1 THEN 1 ELSE 17], P) :
+        P \in { m \in PerfectMatchings6 : \A b \in m : \E x \in b : x % 2 = 1 /\ \E y \in b : y % 2 = 0 } }
+
 Family == CASE Fam = "alltet" -> AllPlace("SMG", "Tetrahedral", 6, <<1, 9, 17, 35>>)
             [] Fam = "allsp"  -> AllPlace("SMG", "SquarePlanar", 78, <<1, 9, 17, 35>>)
             [] Fam = "alltbp" -> AllPlace("SMG", "TrigonalBipyramidal", 15, <<1, 9, 17, 35, 8>>)
@@ -169,6 +181,8 @@ Family == CASE Fam = "alltet" -> AllPlace("SMG", "Tetrahedral", 6, <<1, 9, 17, 3
             [] Fam = "crg2"  -> FamCRG(2, "CRG", {1, 6})
             [] Fam = "crg3"  -> FamCRG(3, "CRG", {1, 6})
             [] Fam = "scrg2" -> FamCRG(2, "SCRG", {1, 6})
+            [] Fam = "exch" -> FamExch("CRG")
+            [] Fam = "exchs" -> FamExch("SCRG")
             [] Fam = "prismr" -> FamPrism("CRG")
             [] Fam = "prismsr" -> FamPrism("SCRG")
             [] Fam = "cuber" -> FamCube("CRG")
